@@ -28,6 +28,10 @@ pub enum Entity { A(A), B(B) }
 #[derive(Union, Clone)]
 pub enum U { A(A), B(B) }
 
+/// input object argument of `A.arg` (C22: views report input-object literals with their variables resolved)
+#[derive(InputObject)]
+pub struct Span { pub min: Option<i32>, pub max: Option<i32> }
+
 /// derive(SimpleObject) with a flattened part: its fields have generated resolvers (no events, no gates, cannot fail)
 #[derive(SimpleObject, Clone)]
 pub struct More { slabel: Option<String>, sb: Option<bool> }
@@ -59,18 +63,28 @@ fn path_of(ctx: &Context<'_>) -> J {
     }
 }
 
-pub const ALL_FIELD_NAMES: &[&str] = &["id", "label", "peer", "n", "nn", "f", "fnn", "e", "self", "selfNN", "kids", "kidsNN", "opt", "u", "fail", "guarded", "arg", "b", "a", "ann", "node", "nodes", "us", "bump", "bumpA", "entity", "ints", "grid", "colors", "simple", "sid", "sn", "snn", "sf", "se", "sints", "slabel", "sb"];
+pub const ALL_FIELD_NAMES: &[&str] = &["id", "label", "peer", "n", "nn", "f", "fnn", "e", "self", "selfNN", "kids", "kidsNN", "opt", "u", "fail", "guarded", "arg", "b", "a", "ann", "node", "nodes", "us", "bump", "bumpA", "entity", "ints", "grid", "colors", "simple", "sid", "sn", "snn", "sf", "se", "sints", "slabel", "sb", "sy", "syo"];
+
+/// a resolved argument value as the views report it (input objects: entries sorted by key)
+fn view_value(v: &Value) -> J {
+    match v {
+        Value::Number(x) => json!({"k": "int", "v": x.to_string()}),
+        Value::Null => json!({"k": "null"}),
+        Value::Object(m) => {
+            let mut es: Vec<(String, J)> = m.iter().map(|(k, v)| (k.to_string(), view_value(v))).collect();
+            es.sort_by(|a, b| a.0.cmp(&b.0));
+            json!({"k": "obj", "entries": es.into_iter().map(|(k, v)| json!({"key": k, "val": v})).collect::<Vec<_>>()})
+        }
+        other => json!({"k": "other", "v": other.to_string()}),
+    }
+}
 
 pub fn views(ctx: &Context<'_>) -> J {
     // selection-field view: names (with aliases) of the direct sub-fields, fragments followed
     let sel: Vec<J> = ctx.field().selection_set().map(|f| {
         // the arguments the view reports for the sub-field (resolved: variables substituted, omitted ones absent)
         let args: Vec<J> = match f.arguments() {
-            Ok(a) => a.iter().map(|(n, v)| json!({"name": n.as_str(), "val": match v {
-                Value::Number(x) => json!({"k": "int", "v": x.to_string()}),
-                Value::Null => json!({"k": "null"}),
-                other => json!({"k": "other", "v": other.to_string()}),
-            }})).collect(),
+            Ok(a) => a.iter().map(|(n, v)| json!({"name": n.as_str(), "val": view_value(v)})).collect(),
             Err(_) => vec![json!({"name": "<error>", "val": {"k": "null"}})],
         };
         json!({"name": f.name(), "alias": f.alias().unwrap_or(""), "args": args})
@@ -91,6 +105,16 @@ pub async fn resolve(ctx: &Context<'_>, id: &str, field: &str) -> J {
     }
     let items = w.get("items").and_then(|i| i.as_array()).map(|a| a.len() as i64).unwrap_or(-1);
     req.event(json!({"ev": "finish", "obj": id, "field": field, "path": path_of(ctx), "call": call, "items": items}));
+    w
+}
+
+/// The body of a resolver written as a plain `fn` (the object macro's non-async code path): same events, no gate.
+pub fn resolve_sync(ctx: &Context<'_>, id: &str, field: &str) -> J {
+    let req = ctx.data_unchecked::<Arc<Req>>().clone();
+    let w = req.lookup(id, field);
+    let call = req.bump(&format!("{id}.{field}"));
+    req.event(json!({"ev": "start", "obj": id, "field": field, "path": path_of(ctx), "call": call, "view": views(ctx)}));
+    req.event(json!({"ev": "finish", "obj": id, "field": field, "path": path_of(ctx), "call": call, "items": -1}));
     w
 }
 
@@ -150,7 +174,7 @@ impl A {
     async fn peer(&self, ctx: &Context<'_>) -> Option<Result<Node>> { opt(&resolve(ctx, &self.0, "peer").await) }
     async fn n(&self, ctx: &Context<'_>) -> Option<Result<i32>> { opt(&resolve(ctx, &self.0, "n").await) }
     /// a field with arguments (C22: views must report the resolved arguments of sub-fields)
-    async fn arg(&self, ctx: &Context<'_>, x: Option<i32>, y: Option<i32>) -> Option<Result<i32>> { let _ = (x, y); opt(&resolve(ctx, &self.0, "arg").await) }
+    async fn arg(&self, ctx: &Context<'_>, x: Option<i32>, y: Option<i32>, o: Option<Span>) -> Option<Result<i32>> { let _ = (x, y, o.map(|s| (s.min, s.max))); opt(&resolve(ctx, &self.0, "arg").await) }
     async fn nn(&self, ctx: &Context<'_>) -> Result<i32> { req(&resolve(ctx, &self.0, "nn").await) }
     async fn f(&self, ctx: &Context<'_>) -> Option<Result<f64>> { opt(&resolve(ctx, &self.0, "f").await) }
     async fn fnn(&self, ctx: &Context<'_>) -> Result<f64> { req(&resolve(ctx, &self.0, "fnn").await) }
@@ -165,6 +189,9 @@ impl A {
     async fn opt(&self, ctx: &Context<'_>) -> Option<Result<Vec<Option<Result<A>>>>> { opt_list_opt(&resolve(ctx, &self.0, "opt").await) }
     async fn u(&self, ctx: &Context<'_>) -> Option<Result<U>> { opt(&resolve(ctx, &self.0, "u").await) }
     async fn simple(&self, ctx: &Context<'_>) -> Option<Result<Simple>> { simple_of(ctx, &resolve(ctx, &self.0, "simple").await) }
+    /// plain (non-async) resolvers: Int! and Int
+    fn sy(&self, ctx: &Context<'_>) -> Result<i32> { req(&resolve_sync(ctx, &self.0, "sy")) }
+    fn syo(&self, ctx: &Context<'_>) -> Option<Result<i32>> { opt(&resolve_sync(ctx, &self.0, "syo")) }
     /// leaf list [Int!] and nested list [[Int]!]
     async fn ints(&self, ctx: &Context<'_>) -> Option<Result<Vec<Result<i32>>>> { opt_list_nn(&resolve(ctx, &self.0, "ints").await) }
     async fn grid(&self, ctx: &Context<'_>) -> Option<Result<Vec<Result<Vec<Option<Result<i32>>>>>>> { opt_list_nn(&resolve(ctx, &self.0, "grid").await) }
